@@ -1,12 +1,19 @@
 (* C06 — mapping a fragment graph onto more or fewer processors keeps its result.
    The model of fragmentComposer (Front/Frag.v) is compared with the assembler instruction by
    instruction for every processor of every partition, and the graph's direct evaluation with the
-   settled outputs of the simulated machines.  Proved so far: the register discipline that makes
+   settled outputs of the simulated machines.  Proved: for any graph whose sources name earlier
+   instances, any collapse list that keeps producers before consumers, any fragments with
+   register-only bodies that read only what they received or wrote, any register size and any initial
+   register contents, one pass of the section fragmentComposer generates leaves, at every processor
+   output, the value the direct evaluation of the graph gives to the port numbered there, provided
+   the processor inputs carry the values of their sources (graph inputs or the outputs of instances
+   on other processors).  So the direct evaluation is the state in which every processor of every
+   partition reproduces its own outputs; that the running machine reaches that state is what the
+   simulation part of the check observes.  Also proved: the register discipline that makes
    collapsing harmless (temporaries are fresh and distinct, NextResource returns the lowest free
-   register) and the shape of the evaluation; the full statement "one pass of the composed section
-   computes the graph's values at its outputs" is stated in DESIGN.md and not yet proved (partial). *)
+   register) and the shape of the evaluation. *)
 From Coq Require Import List NArith Bool Arith.
-From BM Require Import Isa.Sim Front.Frag Proofs.FragProofs.
+From BM Require Import Isa.Sim Front.Frag Front.FragWf Proofs.FragProofs Proofs.FragPass.
 Import ListNotations.
 
 Theorem temporaries_never_collide_with_fragment_registers : forall k used,
@@ -24,3 +31,39 @@ Theorem evaluation_records_one_result_per_instance : forall rsize nregs xs g val
   length (eval_insts rsize nregs xs g vals) = length vals + length g.
 Proof. exact eval_records_every_instance. Qed.
 Print Assumptions evaluation_records_one_result_per_instance.
+
+(* the decidable conditions (Front/FragWf.v) are evaluated on every generated graph by the
+   correspondence check (FragCheck code 3) *)
+Theorem one_pass_of_the_composed_section_leaves_the_graph_values_at_the_outputs :
+  forall rs nregs nouts g cl xs r body,
+  graph_ok g = true -> pass_ok g cl nregs nouts = true -> length r = nregs ->
+  compose g cl = body ++ [IJ 0] ->
+  forall p q k, In p cl -> index_of2 (p, q) (out_ports g cl) = Some k ->
+  nthN (snd (run_pass rs body (pass_inputs rs nregs g cl xs) nouts r)) k =
+  nthN (nth p (eval_insts rs nregs xs (insts g) []) []) q.
+Proof. exact compose_pass_correct. Qed.
+Print Assumptions one_pass_of_the_composed_section_leaves_the_graph_values_at_the_outputs.
+
+Theorem external_outputs_carry_the_direct_evaluation :
+  forall rs nregs nouts g cl xs r body,
+  graph_ok g = true -> pass_ok g cl nregs nouts = true -> length r = nregs ->
+  compose g cl = body ++ [IJ 0] ->
+  forall p q, In (p, q) (ext_out g) -> In p cl -> q < length (resout (ifrag (inst_at g p))) ->
+  exists k, index_of2 (p, q) (out_ports g cl) = Some k /\
+    nthN (snd (run_pass rs body (pass_inputs rs nregs g cl xs) nouts r)) k =
+    nthN (nth p (eval_insts rs nregs xs (insts g) []) []) q.
+Proof. exact compose_pass_external. Qed.
+Print Assumptions external_outputs_carry_the_direct_evaluation.
+
+(* non-vacuity: a graph with fan-out across a processor boundary and two fragments that use the same
+   register names; both collapse lists of the partition {0,2} {1} meet the conditions, a temporary is
+   allocated, and the pass gives the evaluation's value whatever the registers held before *)
+Definition ex_f1 := mkFrag [0] [1] [ICpy 1 0; IInc 1].
+Definition ex_f2 := mkFrag [0; 1] [0] [IAdd 0 1].
+Definition ex_g := mkGraph [mkInst ex_f1 [SExt 0]; mkInst ex_f1 [SOut 0 0]; mkInst ex_f2 [SOut 0 0; SOut 1 0]] [(2, 0)].
+Example the_conditions_are_met :
+  graph_ok ex_g = true /\ pass_ok ex_g [0; 2] 8 2 = true /\ pass_ok ex_g [1] 8 1 = true /\
+  tmp_ports ex_g [0; 2] = [(0, 0)] /\ index_of2 (2, 0) (out_ports ex_g [0; 2]) = Some 1 /\
+  eval 8 8 ex_g [5%N] = [13%N] /\
+  snd (run_pass 8 (removelast (compose ex_g [0; 2])) (pass_inputs 8 8 ex_g [0; 2] [5%N]) 2 [9; 9; 9; 9; 9; 9; 9; 9]%N) = [6; 13]%N.
+Proof. vm_compute. repeat split; reflexivity. Qed.
